@@ -74,6 +74,12 @@ class SubclassCoercerProvider(NormTypeCoercerProvider):
             or is_parametrized(norm_dst.source)
         ):
             raise CannotProvide
+        if norm_src.origin == Any:
+            # typing.Any is a class since Python 3.11, but values annotated with it are not its instances
+            raise CannotProvide
+        if norm_dst.origin is tuple and not norm_dst.args:
+            # Tuple[()] has no arguments to be detected as parametrized, yet it is not the class `tuple`
+            raise CannotProvide
         if is_subclass_soft(norm_src.origin, norm_dst.origin):
             return as_is_stub_with_ctx
         raise CannotProvide
